@@ -82,13 +82,14 @@ Discover(e) ==
              IsSome(e.res) /\ e.res.v.v = RefSorted(SeqSet(e.order) \cup {0}))
   /\ UNCHANGED codes
 
-\* ---- names.patchfile: file touched by ZiPatch::apply for an `A` command ------------
-PatchFile(e) ==
-  /\ Require(l, "patch-writes-read-name", <<e.cat, e.ex, e.chunk, e.plat, e.dat>>,
-             /\ IsValue(e.res)
-             /\ e.res.v = <<<<115,113,112,97,99,107,47>> \o ExFolder(e.ex) \o <<47>>
-                             \o ReadDatName(e.cat, e.ex, e.chunk, e.plat, e.dat)>>)
-  /\ UNCHANGED codes
+\* ---- names.patchfiles: files touched by ZiPatch::apply (one `A` command per chunk x dat) -------
+PatchFiles(e) ==
+  LET want == {<<115,113,112,97,99,107,47>> \o ExFolder(e.ex) \o <<47>>
+                 \o ReadDatName(e.cat, e.ex, e.chunks[i], e.plat, e.dats[j]) :
+               i \in 1..Len(e.chunks), j \in 1..Len(e.dats)}
+  IN /\ Require(l, "patch-writes-read-names", <<e.cat, e.ex, e.plat>>,
+                IsValue(e.res) /\ {e.res.v[i] : i \in 1..Len(e.res.v)} = want)
+     /\ UNCHANGED codes
 
 \* ---- mark.end: laws over the whole observed table ------------------------------
 End(e) ==
@@ -107,7 +108,7 @@ Next ==
        [] Ev.op = "names.files"     -> Files(Ev)
        [] Ev.op = "names.sort"      -> Sort(Ev)
        [] Ev.op = "names.discover"  -> Discover(Ev)
-       [] Ev.op = "names.patchfile" -> PatchFile(Ev)
+       [] Ev.op = "names.patchfiles" -> PatchFiles(Ev)
        [] Ev.op = "mark.end"        -> End(Ev)
        [] OTHER -> BadCase(l, "unknown event") /\ UNCHANGED codes
   /\ l' = l + 1
